@@ -17,7 +17,7 @@ PUNCT = ["0", "x", "(", ")", ",", "{", "}", "[", "]", "#d8", ":", "=", "\n", "1 
          "#if", "#else", "#elif", "#fn", "#ruledef", "#subruledef", "#include", "#bankdef", "#bank", "#assert", "asm", "$", "<", ">", "?", ";", ";*", "*;", "\\",
          "\r", "\r\n", "\x00", "\t", "\x0c", "\ufeff", "#once", "#noemit", "#bits", "#labelalign", "#addr", "#align", "#res", "#d", "incbin", "le", "sizeof"]
 EDIT_KINDS = ["delete", "duplicate", "swap", "replace", "nonascii_token", "nonascii_inside_token", "nonascii_in_comment_or_string",
-              "nonascii_comment", "splice_line", "unbalanced", "delete_line", "duplicate_line"]
+              "nonascii_comment", "splice_line", "unbalanced", "delete_line", "duplicate_line", "extreme_number"]
 
 
 def mutate(rng, text, nedits, donors):
@@ -29,7 +29,7 @@ def mutate(rng, text, nedits, donors):
             toks = ["\n"]
         k = rng.weighted([("delete", 12), ("duplicate", 10), ("swap", 10), ("replace", 14), ("nonascii_token", 10),
                           ("nonascii_inside_token", 8), ("nonascii_in_comment_or_string", 6), ("nonascii_comment", 4),
-                          ("splice_line", 10), ("unbalanced", 8), ("delete_line", 4), ("duplicate_line", 4)])
+                          ("splice_line", 10), ("unbalanced", 8), ("delete_line", 4), ("duplicate_line", 4), ("extreme_number", 9)])
         i = rng.below(len(toks))
         if k == "delete":
             del toks[i]
@@ -68,6 +68,16 @@ def mutate(rng, text, nedits, donors):
                 del toks[rng.choice(br)]
             else:
                 toks.insert(i, rng.choice(["{", "}", "{", "}", "(", ")", "[", "]"]))
+        elif k == "extreme_number":
+            nums = [x for x in range(len(toks)) if NUMBER_RE.match(toks[x])]
+            v = rng.choice(word_extremes())
+            t = spell(v, rng.choice(["dec", "hex", "hex_"]))
+            if nums:
+                x = rng.choice(nums)
+                # keep a `#d8`-style suffix a suffix: the token before decides whether a sign is welcome
+                toks[x] = t if not (x and toks[x - 1].endswith("#d")) else t.lstrip("-")
+            else:
+                toks.insert(i, t)
         elif k == "delete_line" or k == "duplicate_line":
             nl = [-1] + [x for x in range(len(toks)) if toks[x] == "\n"]
             a = rng.below(len(nl))
@@ -222,6 +232,134 @@ def zero_size_family():
                     out.append(("gen:zero/%s/%s/labels_%s/tail_%d" % (iname, bname, lname, len(tail) and (1 if tail[0] != item else 2)),
                                 {"main.asm": src.encode("utf-8")}, "main.asm"))
     return out
+
+
+# ----------------------------------------------------------------------------- directed family: machine-word extremes
+def word_extremes():
+    """machine-word boundaries and their neighbours, positive and negative"""
+    vals = [0, 1, 2 ** 16, 2 ** 31 - 1, 2 ** 31, 2 ** 31 + 1, 2 ** 32 - 2, 2 ** 32 - 1, 2 ** 32, 2 ** 32 + 1, 2 ** 63 - 1, 2 ** 63, 2 ** 63 + 1]
+    vals += [2 ** 64 - 1 - k for k in range(17)] + [2 ** 64, 2 ** 64 + 1, 2 ** 65, 2 ** 128 - 1]
+    out = []
+    for v in vals:
+        out.append(v)
+        if v:
+            out.append(-v)
+    return out
+
+
+def spell(v, how):
+    if how == "hex":
+        return ("-0x%x" % -v) if v < 0 else ("0x%x" % v)
+    if how == "hex_":
+        h = "%x" % abs(v)
+        h = "_".join([h[max(0, i - 4):i] for i in range(len(h), 0, -4)][::-1])
+        return ("-0x" if v < 0 else "0x") + h
+    return str(v)
+
+
+MAG_RULES = "#ruledef\n{\n    ldi {x: u8} => 0x10 @ x\n    shl {x} => (1 << x)`8\n    big {x: u@W@} => 0x11\n}\n"
+# (name, program with the hole @@, the value may be negative, `must fail` predicate on the value or None)
+MAG_TEMPLATES = [
+    ("shl_const", "x = 0xff << @@\n#d8 x`8\n", True, lambda v: v >= 2 ** 31 or v < 0),
+    ("shl_one", "#d8 (1 << @@)`8\n", True, lambda v: v >= 2 ** 31 or v < 0),
+    ("shl_paren", "x = 0xff << (@@)\n", True, lambda v: v >= 2 ** 31 or v < 0),
+    ("shl_minus1", "x = 0xff << (@@ - 1)\n", True, None),
+    ("shl_plus1", "x = 0xff << (@@ + 1)\n", True, None),
+    ("shl_lhs", "x = @@ << 1\n", True, None),
+    ("shl_both", "x = @@ << @@\n", True, None),
+    ("shl_zero_lhs", "x = 0 << @@\n", True, None),
+    ("shl_label", "l:\n#d8 1\n#d8 (l << @@)`8\n", True, None),
+    ("shl_in_rule", "#ruledef { s {x} => (0xff << x)`8 }\ns @@\n", True, None),
+    ("shl_in_fn", "#fn f(n) => 0xff << n\n#d8 f(@@)`8\n", True, None),
+    ("shl_in_assert", "#assert (1 << @@) != 0\n", True, None),
+    ("shl_in_if", "#if (1 << @@) > 0\n{\n#d8 1\n}\n", True, None),
+    ("shr_const", "x = 0xff >> @@\n#d8 x`8\n", True, None),
+    ("shr_neg_lhs", "x = -1 >> @@\n", True, None),
+    ("res", "#d8 1\n#res @@\n#d8 2\n", True, None),
+    ("res_last", "#res @@\n", True, None),
+    ("align", "#d8 1\n#align @@\n#d8 2\n", True, None),
+    ("addr", "#d8 1\n#addr @@\n#d8 2\n", True, None),
+    ("addr_label", "#addr @@\nl:\n#d8 l`8\n", True, None),
+    ("slice_hi", "#d 0xabcd[@@:0]\n", True, None),
+    ("slice_lo", "#d 0xabcd[15:@@]\n", True, None),
+    ("slice_both", "#d 0xabcd[@@:@@]\n", True, None),
+    ("slice_hi_lo1", "#d 0xabcd[@@:(@@ - 1)]\n", True, None),
+    ("slice_short", "#d 0xabcd`@@\n", False, None),
+    ("slice_short_paren", "x = 5\n#d (x`@@)\n", False, None),
+    ("data_width", "#d@@ 1\n", False, None),
+    ("param_u", "#ruledef { t {x: u@@} => 0x11 }\nt 1\n", False, None),
+    ("param_s", "#ruledef { t {x: s@@} => 0x11 }\nt 1\n", False, None),
+    ("param_i", "#ruledef { t {x: i@@} => 0x11 @ x }\nt 1\n", False, None),
+    ("typed_arg", "#ruledef { t {x: u8} => 0x11 @ x }\nt @@\n", True, None),
+    ("untyped_arg", "#ruledef { t {x} => 0x11 @ x`8 }\nt @@\n", True, None),
+    ("bank_bits", "#bankdef b { #bits @@, #addr 0, #size 8, #outp 0 }\n#d8 1\n", True, None),
+    ("bank_addr", "#bankdef b { #addr @@, #size 8, #outp 0 }\nl:\n#d8 1\n#d8 l`8\n", True, None),
+    ("bank_size", "#bankdef b { #addr 0, #size @@, #outp 0 }\n#d8 1\n", True, None),
+    ("bank_size_fill", "#bankdef b\n{\n    #addr 0\n    #size @@\n    #outp 0\n    #fill\n}\n#d8 1\n", True, None),
+    ("bank_outp", "#bankdef b { #addr 0, #size 8, #outp @@ }\n#d8 1\n", True, None),
+    ("bank_addr_end", "#bankdef b { #addr 0, #addr_end @@, #outp 0 }\n#d8 1\n", True, None),
+    ("bank_labelalign", "#bankdef b { #addr 0, #size 8, #outp 0, #labelalign @@ }\n#d8 1\nl:\n", True, None),
+    ("bank_bits_big_res", "#bankdef b { #bits @@, #addr 0, #outp 0 }\n#res 16\nl:\n", True, None),
+    ("incbin_start", '#d incbin("data.bin", @@)\n', True, None),
+    ("incbin_size", '#d incbin("data.bin", 1, @@)\n', True, None),
+    ("incbin_both", '#d incbin("data.bin", @@, @@)\n', True, None),
+    ("incbinstr_size", '#d incbinstr("data.txt", 0, @@)\n', True, None),
+    ("inchexstr_start", '#d inchexstr("data.txt", @@, 2)\n', True, None),
+    ("mul", "x = @@ * @@\n", True, None),
+    ("mul3", "x = @@ * @@ * @@ * @@\n", True, None),
+    ("add", "x = @@ + @@\n#d8 x`8\n", True, None),
+    ("sub", "x = -@@ - @@\n", False, None),
+    ("div", "x = 1 / @@\ny = @@ / -1\n", True, None),
+    ("mod", "x = 7 % @@\ny = @@ % -1\n", True, None),
+    ("neg_not", "x = !@@\ny = -(@@)\n", True, None),
+    ("concat", "x = 0x1 @ (@@)`8\n", True, None),
+    ("le", "x = le((@@)`16)\n", True, None),
+    ("le_size", "x = le(0x1234`@@)\n", False, None),
+    ("sizeof_like", "x = 1`@@\n#d x\n", False, None),
+    ("const_then_res", "n = @@\n#res n\n", True, None),
+    ("const_then_shift", "n = @@\nx = 1 << n\n#d8 x`8\n", True, lambda v: v >= 2 ** 31 or v < 0),
+    ("const_then_slice", "n = @@\n#d 0xff[n:0]\n", True, None),
+    ("label_far", "#addr @@\nl:\n#addr 0\n#d64 l\n", True, None),
+    ("ternary", "x = @@ > 0 ? 1 << @@ : 0\n", True, None),
+]
+
+
+def magnitude_family():
+    """[(label, files, entry, must_fail)]: every template x every machine-word extreme x two spellings (the same on every run)"""
+    files0 = {"data.bin": bytes(range(16)), "data.txt": b"0123456789abcdef"}
+    out = []
+    for (name, tpl, neg_ok, must) in MAG_TEMPLATES:
+        for v in word_extremes():
+            if v < 0 and not neg_ok:
+                continue
+            for how in ("dec", "hex") if abs(v) >= 2 ** 31 else ("dec",):
+                src = tpl.replace("@@", spell(v, how))
+                f = dict(files0)
+                f["main.asm"] = src.encode("utf-8")
+                out.append(("gen:magnitude/%s/%s" % (name, spell(v, "hex")), f, "main.asm", bool(must and must(v))))
+    return out
+
+
+def magnitude_cli():
+    """[(label, argv tail, program, must_fail)] numbers on the command line"""
+    out = []
+    prog = "X = 1\n#d8 (1 << X)`8\n#d8 X`8\n"
+    for v in word_extremes():
+        d = str(v)
+        h = spell(v, "hex")
+        out.append(("iters", ["--iters=" + d], prog, v <= 0 or v >= 2 ** 64))
+        out.append(("iters_short", ["-t", d], prog, v <= 0 or v >= 2 ** 64))
+        if v >= 0:
+            out.append(("group", ["-f", "annotated,group:" + d, "-p"], prog, v == 0 or v > 65535))
+            out.append(("base", ["-f", "annotated,base:" + d, "-p"], prog, True if v not in (2, 4, 8, 16, 32, 64, 128) else False))
+            out.append(("addr_unit", ["-f", "intelhex,addr_unit:" + d, "-p"], prog, v not in (8, 16, 32)))
+            out.append(("tcgame_group", ["-f", "tcgame,group:" + d, "-p"], prog, v == 0 or v > 65535))
+        out.append(("define_shift", ["-dX=" + d, "-p"], prog, None))
+        out.append(("define_shift_hex", ["-dX=" + h, "-p"], prog, None))
+    return out
+
+
+NUMBER_RE = re.compile(r"^(0x[0-9a-fA-F_]+|0b[01_]+|0o[0-7_]+|[0-9][0-9_]*)$")
 
 
 def donor_lines(bases, rng, n=400):
@@ -483,6 +621,10 @@ def verdict_driver(d, cmd, faults):
     return None
 
 
+MEM_LIMIT_KB = 4 * 1024 * 1024
+import threading
+SPAWN_LOCK = threading.Lock()
+
 ANSI = re.compile(rb"\x1b\[[0-9;]*m")
 PROGRESS = re.compile(rb"^(customasm v?[^\n]*|assembling `[^\n]*`\.\.\.|writing `[^\n]*`\.\.\.|resolved in \d+ iterations?|)$")
 
@@ -541,11 +683,22 @@ def run_real(binary, argv, root, files, prepare=None, timeout=10, stdout_to=None
         opened.append(f)
         return f
     try:
-        pr = subprocess.run([binary.encode() if any(isinstance(a, bytes) for a in argv) else binary] + list(argv[1:]), cwd=root,
-                            stdout=sink(stdout_to), stderr=sink(stderr_to), timeout=timeout, stdin=subprocess.DEVNULL)
-        res.update(rc=pr.returncode, stdout=pr.stdout or b"", stderr=pr.stderr or b"")
-    except subprocess.TimeoutExpired as e:
-        res.update(rc=None, stdout=e.stdout or b"", stderr=e.stderr or b"", timeout=True)
+        as_bytes = any(isinstance(a, bytes) for a in argv)
+        limit = 'ulimit -v %d; exec "$0" "$@"' % MEM_LIMIT_KB       # a runaway allocation aborts instead of thrashing
+        cmdline = ([b"sh", b"-c", limit.encode(), binary.encode()] + [a if isinstance(a, bytes) else a.encode("utf-8", "surrogateescape") for a in argv[1:]]
+                   if as_bytes else ["sh", "-c", limit, binary] + list(argv[1:]))
+        # processes are SPAWNED one at a time: a fork in another thread between os.pipe() and os.close(read end) would keep
+        # the read end of the "nobody reads" pipe alive for a moment and let a write succeed
+        with SPAWN_LOCK:
+            so, se = sink(stdout_to), sink(stderr_to)
+            pr = subprocess.Popen(cmdline, cwd=root, stdout=so, stderr=se, stdin=subprocess.DEVNULL)
+        try:
+            out, err = pr.communicate(timeout=timeout)
+            res.update(rc=pr.returncode, stdout=out or b"", stderr=err or b"")
+        except subprocess.TimeoutExpired:
+            pr.kill()
+            out, err = pr.communicate()
+            res.update(rc=None, stdout=out or b"", stderr=err or b"", timeout=True)
     finally:
         for f in opened:
             try:
@@ -578,6 +731,8 @@ def verdict_real(res, cmd, unwritable=(), files=None, stdout_lost=False, stderr_
     nerr = len(re.findall(rb"^error:", err, re.M))
     if rc is not None and rc < 0:
         return "killed by signal %d%s" % (-rc, " (stack overflow)" if b"overflowed its stack" in err else "")
+    if rc == 134 or b"memory allocation" in err or b"capacity overflow" in err:
+        return "abort (exit status %s): %s" % (rc, err.strip().split(b"\n")[-1][:120].decode("utf-8", "replace"))
     if rc == 101 or b"panicked at" in err:
         m = re.search(rb"panicked at ([^\n]*)", err)
         return "panic (exit status %s): %s" % (rc, m.group(1).decode("utf-8", "replace")[:160] if m else "?")
